@@ -63,7 +63,8 @@ UpdVerdict(cfg, st, e, u, k) ==
   ELSE IF e.tb # st.time[c] THEN Fail("time-before", k)
   ELSE IF ~MayUpdate(cfg, st) THEN Fail("no-late-update", k)
   ELSE IF ~AllowedChoice(cfg, st, c) THEN Fail("choice", k)
-  ELSE IF ~Available(cfg, st, c) THEN Fail("avail", k)
+  \* updated although it (transitively) waits for itself: an unbroken cycle was not reported (C04)
+  ELSE IF ~Available(cfg, st, c) THEN Fail(IF c \in LacksPlus(cfg, st, c) THEN "cycle-not-reported" ELSE "avail", k)
   ELSE IF e.ta # u.s.time[c] \/ e.ta <= e.tb THEN Fail("monotone", k)
   ELSE IF \E x \in 1..Len(e.log) : ~e.log[x].ok THEN Fail("served", k)
   ELSE IF \E x \in 1..Len(e.nlog) : ~e.nlog[x].ok THEN Fail("served-notify", k)
